@@ -370,7 +370,9 @@ class I2cHint:
             return iv[1] == 0 and iv[3] == 0
         if cmd is None:
             k = self._kind(iv[1])
-            ok = k == "start" if bus == "free" else k == "write" if bus == "start" else True
+            # incl. the condition commands with nothing to do (I2c.tla "nop"): STOP without an open byte
+            # phase, START straight after a START
+            ok = k in ("start", "stop") if bus == "free" else k in ("write", "stop", "start") if bus == "start" else True
             return done >= 1 and ok and k in cfg["cmds"]
         return cfg["early"] == 1 and cmd[0] == "write" and iv[1] == 1024 + cfg["bytes"][0] and iv[3] == 1
 
@@ -396,6 +398,8 @@ class I2cHint:
         if issue:
             w, g = wb
             kind = self._kind(w)
+            if (kind == "stop" and bus != "low") or (kind == "start" and bus == "start"):
+                kind = "nop"
             ncmd = (kind, cfg["sbytes"][g - 1] if kind == "read" else w & 255,
                     g - 1 if kind == "write" else (w >> 8) & 1, 0)
         elif cmd is None or finish:
@@ -403,7 +407,7 @@ class I2cHint:
         else:
             ncmd = cmd
         if finish:
-            bus = "start" if cmd[0] == "start" else "free" if cmd[0] == "stop" else "low"
+            bus = "start" if cmd[0] == "start" else "free" if cmd[0] == "stop" else bus if cmd[0] == "nop" else "low"
         nwb = (None if o[0] == 1 else wb) if wb is not None else ((iv[1], iv[3]) if iv[0] == 1 else None)
         ndone = 0 if (cmd is not None or issue) else min(done + 1, 2)
         return (nwb, ncmd, scl, ndone, bus)
